@@ -144,6 +144,63 @@ func startFeedOn(ds sgbucket.DataStore, args sgbucket.FeedArguments) error {
 	return rc.StartDCPFeed(ctx, args, func(sgbucket.FeedEvent) bool { return true }, nil)
 }
 
+// runOpenRaceScenario: an on-disk bucket with a document that expires in 2 s is closed; c.Handles
+// goroutines open it at the same moment (only one instance wins the registration, the others are
+// discarded), every handle is closed again at once, and the process lives on past the expiry time:
+// nothing that was discarded or closed may still act.
+func runOpenRaceScenario(c shutCase) (res shutResult) {
+	bad := func(clause, f string, a ...any) {
+		res.Devs = append(res.Devs, Deviation{Clause: clause, Props: []string{"C20"}, Sig: clause + "|openRace", Msg: fmt.Sprintf(f, a...)})
+	}
+	w, err := NewWorld(Config{Disk: true, Handles: 1, Colls: allCollNames[:1]})
+	if err != nil {
+		bad("shut.setup", "%v", err)
+		return
+	}
+	_ = w.Coll(0, 0).Set("soon", nowSec()+2, nil, []byte(`{"v":1}`))
+	w.Handles[0].Close(ctx)
+	restore := noiseHook(c.Seed, w.Name)
+	start := make(chan struct{})
+	var wg sync.WaitGroup
+	opened := make([]*rosmar.Bucket, c.Handles)
+	for i := 0; i < c.Handles; i++ {
+		wg.Add(1)
+		go func(i int) {
+			defer wg.Done()
+			<-start
+			b, oerr := rosmar.OpenBucket(w.URL, w.Name, rosmar.ReOpenExisting)
+			if oerr == nil {
+				opened[i] = b
+			}
+		}(i)
+	}
+	close(start)
+	wg.Wait()
+	restore()
+	n := 0
+	for _, b := range opened {
+		if b != nil {
+			n++
+			b.Close(ctx)
+		}
+	}
+	res.InFlight = n >= 2
+	res.Log = append(res.Log, fmt.Sprintf("%d of %d concurrent opens succeeded; all closed again", n, c.Handles))
+	// live on past the expiry time: a panic in a timer goroutine kills this process (seen by the parent)
+	time.Sleep(3500 * time.Millisecond)
+	if left := rosmarGoroutines(); len(left) > 0 {
+		bad("shut.leak", "rosmar goroutines still running after every handle was closed: %v", left)
+	}
+	// the bucket is intact and the document expired (or expires) normally when it is opened again
+	b, oerr := rosmar.OpenBucket(w.URL, w.Name, rosmar.ReOpenExisting)
+	if oerr != nil {
+		bad("shut.reopen", "the bucket cannot be opened again: %v", oerr)
+		return
+	}
+	_ = b.CloseAndDelete(ctx)
+	return
+}
+
 func runStormScenario(c shutCase) (res shutResult) {
 	bad := func(clause, f string, a ...any) {
 		res.Devs = append(res.Devs, Deviation{Clause: clause, Props: []string{"C20"}, Sig: clause + "|storm", Msg: fmt.Sprintf(f, a...)})
